@@ -7,6 +7,7 @@ package centrifuge
 // about node state ("routing entry", "no trace"), the hub tables of the real node.
 
 import (
+	"context"
 	"encoding/json"
 	"errors"
 	"fmt"
@@ -117,6 +118,26 @@ func (w *w1World) checkNoTrace(cl *w1SimClient, when string) {
 		}
 		if _, ok := res.Presence[cl.client.uid]; ok {
 			s.Violate("C05", "presence-survives", "presence entry of closed connection", "%s: closed client %d still present in %s", when, cl.idx, ch)
+		}
+	}
+	// client-keyed map presence (user-keyed entries are by design left to their TTL)
+	for _, ch := range w.sc.Channels {
+		if !chHas(ch, 'M') {
+			continue
+		}
+		res, err := w.node.MapStateRead(context.Background(), w1MapClientPresence(ch), MapReadStateOptions{Limit: -1})
+		if err != nil {
+			continue
+		}
+		s.Probe("c05_map_presence_checked")
+		for _, pub := range res.Publications {
+			if pub.Key == cl.client.uid {
+				sig := "map client presence entry of closed connection"
+				if w.endedDuringSubscribeCallback(cl, ch) {
+					sig += " [the subscription was ended (unsubscribe or close) while its subscribe was still completing]"
+				}
+				s.Violate("C05", "map-presence-survives", sig, "%s: closed client %d still has key in %s", when, cl.idx, w1MapClientPresence(ch))
+			}
 		}
 	}
 }
@@ -1241,6 +1262,81 @@ func (w *w1World) unsubOverlapsSubStart(cl *w1SimClient, ch string) bool {
 	for _, u := range unsubs {
 		for _, sb := range subs {
 			if u.a < sb.b && sb.a < u.b {
+				return true
+			}
+		}
+	}
+	return false
+}
+
+// endedDuringSubscribeCallback: did an unsubscribe of ch for this connection (own command,
+// node-level or client-level call) or the close of the connection begin while the completion
+// callback of one of its subscribe commands for ch was still running? The join publication
+// and the map presence entries are added by the tail of that callback, after the
+// subscription is committed and the unsubscribe wait gate is released.
+func (w *w1World) endedDuringSubscribeCallback(cl *w1SimClient, ch string) bool {
+	end := func(x int64) int64 {
+		if x == 0 {
+			return 1 << 62
+		}
+		return x
+	}
+	// intervals during which a subscribe of ch for this connection was completing
+	type iv struct{ a, b int64 }
+	var subs []iv
+	for _, cb := range cl.subCbs {
+		if cb.Ch == ch {
+			subs = append(subs, iv{cb.A, end(cb.B)})
+		}
+	}
+	for _, c := range cl.cmds {
+		if c.Kind != "connect" {
+			continue
+		}
+		for _, cs := range cl.spec.ConnSubs {
+			if cs == ch {
+				// connect-time subscription: completing until OnConnect has run
+				b := int64(1 << 62)
+				for _, x := range cl.cbs {
+					if x.Kind == "connect-done" && x.Seq > c.Seq {
+						b = x.Seq
+						break
+					}
+				}
+				subs = append(subs, iv{c.Seq, b})
+			}
+		}
+	}
+	for _, op := range w.nodeOps {
+		mine := (strings.HasPrefix(op.Kind, "n") && op.User == cl.spec.User) || (strings.HasPrefix(op.Kind, "c") && op.C == cl.idx)
+		if mine && (op.Kind == "nsub" || op.Kind == "csub") && op.Ch == ch {
+			subs = append(subs, iv{op.Seq, end(op.RetSeq)})
+		}
+	}
+	for _, sb := range subs {
+		a, b := sb.a, sb.b
+		in := func(x, y int64) bool { return x != 0 && x < b && a < end(y) }
+		if in(cl.peerCloseSeq, cl.closedSeq) || (cl.closedSeq > a && cl.closedSeq < b) {
+			return true
+		}
+		for _, op := range w.nodeOps {
+			mine := (strings.HasPrefix(op.Kind, "n") && op.User == cl.spec.User) || (strings.HasPrefix(op.Kind, "c") && op.C == cl.idx)
+			if !mine {
+				continue
+			}
+			switch op.Kind {
+			case "nunsub", "cunsub":
+				if (op.Ch == ch || op.Ch == "") && in(op.Seq, op.RetSeq) {
+					return true
+				}
+			case "ndisc", "cdisc":
+				if in(op.Seq, op.RetSeq) {
+					return true
+				}
+			}
+		}
+		for _, c := range cl.cmds {
+			if c.Kind == "unsubscribe" && c.Ch == ch && in(c.Seq, c.RetSeq) {
 				return true
 			}
 		}
